@@ -247,13 +247,41 @@ def sched_conc(r, big):
     return [{"ev": "Cfg", "t": t}] + steps
 
 
+def sched_race(r, big):
+    """All goroutines enter the store at the same moment with the shares that complete and exceed the threshold of the
+    same validators (the t-th and the (t+1)-th partial racing)."""
+    n, t = r.choice([(7, 5), (6, 4), (4, 3), (5, 3), (7, 5)])
+    d = duty(1, r.choice(["att", "randao", "syncmsg", "sig", "exit"]))
+    nv = r.randint(1, 3)
+    sh = {v: r.sample(range(1, n + 1), n) for v in range(1, nv + 1)}
+    steps = []
+    for v in sh:
+        for s in sh[v][:t - 1]:
+            steps.append(call(d, [part(v, s)]))
+    r.shuffle(steps)
+    rest = n - t + 1
+    for k in range(rest):
+        batch = [part(v, sh[v][t - 1 + k], "y" if r.random() < 0.08 else "x") for v in sh if r.random() < 0.9]
+        if batch:
+            steps.append(call(d, batch, r.random() < 0.1, False, k + 1))
+    if r.random() < 0.3:
+        v = r.choice(list(sh))
+        steps.append(call(d, [part(v, sh[v][0])], False, False, rest + 1))      # a duplicate in the same instant
+    if r.random() < 0.2 and not d["ex"]:
+        steps.append(trim(d, rest + 2))
+    for v in sh:
+        if r.random() < 0.4:
+            steps.append(call(d, [part(v, r.choice(sh[v]))]))
+    return [{"ev": "Cfg", "t": t}] + steps
+
+
 def random_schedules(seed, n, big, conc):
     r = vlib.rng(seed, "c07")
     kinds = [sched_fill, sched_fill, sched_abort, sched_multi, sched_exempt]
     out = []
     for i in range(n):
         if conc:
-            out.append(sched_conc(r, big))
+            out.append(sched_race(r, big) if i % 3 == 2 else sched_conc(r, big))
         else:
             k = kinds[i % len(kinds)] if i < 2 * len(kinds) else r.choice(kinds)
             out.append(k(r, big))
@@ -404,6 +432,49 @@ def design_check(o, thorough):
             o.selftests.append({"control": "spec variant " + text, "rejected_as_required": True})
 
 
+def conformance_racy(o, schedules, tag, env, chunk=100):
+    """Like vlib.conformance, for schedules whose outcome depends on goroutine scheduling: a rejected trace may be a
+    rare interleaving, so the rejected schedules are ranked by how often they were rejected and re-examined with many
+    more executions; only what shows up again is reported (through vlib.conformance, which re-executes once more and
+    writes the replay file).  Rejections that never show up again are an infrastructure failure, as everywhere."""
+    from collections import Counter
+    traces, sids, wall = vlib.run_schedules(PID, "c07", "TestExec", schedules, tag=tag, env=env)
+    v = vlib.validate_traces(PID, FAMILY, TRACE, TCFG, traces, chunk=chunk)
+    o.schedules += len(schedules)
+    o.traces += len(traces)
+    o.trace_events += sum(len(t) for t in traces)
+    o.trace_states += v.states
+    for t in traces:
+        o.distinct_keys.add(vlib.digest(t))
+    for t in traces[:2]:
+        if len(o.samples) < 6:
+            o.samples.append({"family": FAMILY, "tag": tag, "trace": t[:40]})
+    log("[%s] %s/%s: %d schedules -> %d traces (%d events) executed in %.1fs, validated in %.1fs: %d accepted, %d rejected"
+        % (PID, FAMILY, tag, len(schedules), len(traces), sum(len(t) for t in traces), wall, v.wall,
+           len(v.accepted), len(v.rejected)))
+    if not v.rejected:
+        return
+    ranked = [sid for sid, _ in Counter(sids[ti] for ti, _, _ in v.rejected).most_common()]
+    hot = dict(env, VERIF_REPS="200")
+    before = len(o.violations) + len(o.known)
+    tried = 0
+    for sid in ranked[:8]:
+        tried += 1
+        try:
+            vlib.conformance(o, FAMILY, TRACE, TCFG, "c07", [schedules[sid]], tag="%s_hot%d" % (tag, sid), env=hot, chunk=chunk)
+        except vlib.Infra as e:
+            if "did not reproduce" not in str(e):
+                raise
+            continue
+        if len(o.violations) + len(o.known) - before >= 3:
+            break
+    if len(o.violations) + len(o.known) == before:
+        ti, pos, reason = v.rejected[0]
+        raise vlib.Infra("%d traces of %d concurrent schedules were rejected (first: schedule %d, %s at event %d) but none "
+                         "showed up again in 200 executions each of the %d most affected schedules: %s"
+                         % (len(v.rejected), len(ranked), sids[ti], reason, pos, tried, json.dumps(traces[ti])[:1500]))
+
+
 def run(tier, seed):
     o = vlib.Outcome(PID, tier, seed)
     thorough = tier == "thorough"
@@ -420,8 +491,7 @@ def run(tier, seed):
     vlib.conformance(o, FAMILY, TRACE, TCFG, "c07", [from_tlc(s) for s in scheds], tag="tlcgen", env=env)
     vlib.conformance(o, FAMILY, TRACE, TCFG, "c07", random_schedules(seed, 2500 if thorough else 300, thorough, False),
                      tag="random", env=env)
-    vlib.conformance(o, FAMILY, TRACE, TCFG, "c07", random_schedules(seed, 1500 if thorough else 120, thorough, True),
-                     tag="conc", env=cenv, chunk=100)
+    conformance_racy(o, random_schedules(seed, 1500 if thorough else 120, thorough, True), "conc", cenv)
     tr = vlib.split_traces(vlib.read_ndjson(vlib.workdir(PID) + "/trace_control.ndjson"))
     vlib.binding_selftest(o, FAMILY, TRACE, TCFG, tr, mutators())
     return vlib.finish(o, "model_checking", RULE,
